@@ -444,3 +444,19 @@ Proof.
     unfold or_check. rewrite K_or_is_int. cbn [is_int]. rewrite K_or_int. reflexivity. }
   rewrite E. destruct (negb (Z.land stage (stage_mask a) =? 0)); reflexivity.
 Qed.
+
+(* ------------------------------------------------------------------ *)
+(* the stage constants are distinct single bits: a field required at one stage
+   is never required at another one by accident *)
+Lemma K_dfs_constants_ok : constants_ok dfs_constants = true.
+Proof. vm_compute. reflexivity. Qed.
+
+Theorem stage_constants_disjoint : forall a b, In a dfs_constants -> In b dfs_constants ->
+  (a = b -> or_check a (SInt b) = Ok true /\ and_check a (SInt b) = Ok true)
+  /\ (a <> b -> or_check a (SInt b) = Ok false /\ and_check a (SInt b) = Ok false).
+Proof.
+  intros a b Ha Hb. unfold dfs_constants in *. cbn in Ha, Hb.
+  destruct Ha as [<-|[<-|[<-|[<-|[]]]]]; destruct Hb as [<-|[<-|[<-|[<-|[]]]]];
+    (split; intros X; [try (exfalso; revert X; vm_compute; discriminate); split; vm_compute; reflexivity
+                      | try (exfalso; apply X; reflexivity); split; vm_compute; reflexivity]).
+Qed.
